@@ -86,6 +86,9 @@ structure St where
   snaps : Array Snapshot := #[]
   out : Array String := #[]
 
+/-- a string variable has grown past 500 characters: both sides stop stepping such a runner -/
+def tooBig (s : Store) : Bool := s.any (fun kv => match kv.2 with | .str t => t.length > 500 | _ => false)
+
 def runCase (c : S) : List String := Id.run do
   let prog := match c.find "prog" with | some p => program p | none => []
   let seedStr := match c.find "seed" with | some s => (s.args.headD (.atom "")).str | none => "seed"
@@ -118,7 +121,7 @@ def runCase (c : S) : List String := Id.run do
         match lookup st.runners j with
         | none => st := { st with out := st.out.push "NORUNNER" }
         | some hr =>
-          if hr.ends ≥ 3 then
+          if hr.ends ≥ 3 || tooBig hr.r.d.store then
             st := { st with out := st.out.push "SKIP" }
           else
           let cRaw := (a.getD 1 (.atom "0")).toNat
